@@ -427,6 +427,16 @@ func modelDiff(a *app.App, inputs []BS, mode app.Mode, asp diffAspects, hooks *d
 			if !framesEqual(after.Frames, want) {
 				return at("cache-differs", "cache scopes %v, documented semantics %v", after.Frames, want), f, ""
 			}
+			// what the cache says it holds is what it holds (a refused RELOAD leaves both alone)
+			sum := 0
+			for _, fr := range after.Frames {
+				for _, v := range fr {
+					sum += len(v)
+				}
+			}
+			if int(after.Used) != sum {
+				return at("cache-accounting-differs", "the cache reports %d bytes in use, its scopes %v hold %d", after.Used, after.Frames, sum), f, ""
+			}
 			// the value kept for the end of the session is the last one that was stored
 			if after.Last != m.Last && ms.Ended == "" && !ms.FlushAny {
 				return at("last-value-differs", "the cache's last value is %q, the last value stored by a LOAD is %q", after.Last, m.Last), f, ""
